@@ -349,13 +349,13 @@ impl Space for RoundTrip {
             ctx.outcome("time-limited");
             return Ok(());
         }
-        // A right-hand side of 1e20 that is *kept* (presolve switched off) makes the instance so ill-conditioned that
-        // the one-ulp data differences of a scale/unscale round trip can flip an inconclusive status into Solved
-        // and back; there only contradictory definite verdicts count. (With equilibration off the round trip is
-        // exact and everything is compared bit for bit below.)
-        if self.toggle_after_build {
-            // the two solvers work with different scalings (one equilibrated at construction, the other not): what
-            // is compared is the file (above), the settings, and that definite verdicts agree
+        // With equilibration the loaded data differ from the solver's by the rounding of one scale/unscale round
+        // trip (the property allows exactly that). On knife-edge instances -- a kept right-hand side of 1e20,
+        // iterative refinement switched off, a generalised power cone -- those ulps can turn Solved into
+        // InsufficientProgress or back. An inconclusive status therefore carries no expectation there; definite
+        // verdict classes must agree. With equilibration off the round trip is exact and statuses, objectives
+        // and iteration counts are compared bit for bit below.
+        if st.equilibrate_enable && a.status != b.status {
             let class = |s: SolverStatus| match s {
                 SolverStatus::Solved | SolverStatus::AlmostSolved => 1,
                 SolverStatus::PrimalInfeasible | SolverStatus::AlmostPrimalInfeasible => 2,
@@ -363,20 +363,8 @@ impl Space for RoundTrip {
                 _ => 0,
             };
             let (ca, cb) = (class(a.status), class(b.status));
-            ensure!(ca == 0 || cb == 0 || ca == cb || (ca > 1 && cb > 1), "verdict-differs-after-round-trip", "original {:?} loaded {:?}", a.status, b.status);
-            if ca == 1 && cb == 1 {
-                let tol = 1e-4 * f64::max(1.0, a.obj_val.abs());
-                ensure!((a.obj_val - b.obj_val).abs() <= tol, "objective-differs-after-round-trip", "{} vs {}", a.obj_val, b.obj_val);
-            }
-            ctx.nontrivial += 1;
-            ctx.outcome("flag-flipped-roundtrip");
-            return Ok(());
-        }
-        let kept_infinite_row = !reduced && p.b.iter().any(|v| v.abs() >= 1e15);
-        if kept_infinite_row && (st.equilibrate_enable || equil_at_build) && a.status != b.status {
-            let definite = |s: SolverStatus| matches!(s, SolverStatus::Solved | SolverStatus::PrimalInfeasible | SolverStatus::DualInfeasible);
-            ensure!(!(definite(a.status) && definite(b.status)), "verdict-differs-after-round-trip", "original {:?} loaded {:?}", a.status, b.status);
-            ctx.outcome("ill-conditioned-kept-infinite-row(inconclusive status differs)");
+            ensure!(ca == 0 || cb == 0 || ca == cb, "verdict-differs-after-round-trip", "original {:?} loaded {:?}", a.status, b.status);
+            ctx.outcome("equilibrated-roundtrip:status-differs-within-class-or-inconclusive");
             return Ok(());
         }
         ensure!(a.status == b.status, "verdict-differs-after-round-trip", "original {:?} loaded {:?}", a.status, b.status);
